@@ -90,7 +90,8 @@ type Scenario struct {
 type BPubRec struct {
 	Topic string   `json:"topic"`
 	Tl    []string `json:"tl"`
-	Qos   int      `json:"qos"` // requested by the publisher
+	Short bool     `json:"short"` // two-byte (short) topic name
+	Qos   int      `json:"qos"`   // requested by the publisher
 	Eff   int      `json:"eff"` // QoS used towards this client (-1: no matching subscription)
 	Mid   int      `json:"mid"`
 	Pl    string   `json:"pl"`
@@ -496,7 +497,7 @@ func runScenario(sc Scenario, emit func(Line)) (stuck bool) {
 				topic := string(absmap.DecName(p.Topic))
 				pl := absmap.DecData(p.Pl, sc.Seed)
 				eff, mid := broker.Publish(topic, pl, p.Qos, p.Retain)
-				ev.Pubs = append(ev.Pubs, BPubRec{Topic: p.Topic, Tl: levels(topic), Qos: p.Qos, Eff: eff, Mid: mid, Pl: absmap.EncData(pl)})
+				ev.Pubs = append(ev.Pubs, BPubRec{Topic: p.Topic, Tl: levels(topic), Short: len(topic) == 2, Qos: p.Qos, Eff: eff, Mid: mid, Pl: absmap.EncData(pl)})
 			}
 			// let the exchanges finish (retransmissions need time when the link loses datagrams)
 			runUntil(func() bool {
